@@ -278,6 +278,10 @@ void save_svalue (svalue_t * v, char **buf) {
     }
 }
 
+/* the second pass takes the size of a nested container from what the sizing pass recorded: for damaged text the two
+ * passes can see different containers, and then nothing (or not enough) was recorded */
+#define NESTED_SIZE_RECORDED() (save_svalue_sizes && save_svalue_depth <= save_max_depth && save_svalue_sizes[save_svalue_depth - 1] >= 0)
+
 static int restore_internal_size (char **str, int is_mapping, int depth) {
   register char *cp = *str;
   int size = 0;
@@ -741,15 +745,19 @@ static int restore_mapping (char **str, svalue_t * sv) {
   int err;
 
   if (save_svalue_depth)
-    size = save_svalue_sizes[save_svalue_depth - 1];
-  else if ((size = restore_size (str, 1)) < 0)
     {
-      debug_error ("corrupted");
-      return 0;
+      if (!NESTED_SIZE_RECORDED ())
+        return ROB_MAPPING_ERROR;
+      size = save_svalue_sizes[save_svalue_depth - 1];
     }
+  else if ((size = restore_size (str, 1)) < 0)
+    return ROB_MAPPING_ERROR; /* (this used to report success and leave *sv untouched) */
 
   if (!size)
     {
+      /* (at the top level the sizing pass has moved *str already; nested, it still points at the closing "])") */
+      if (save_svalue_depth && ((*str)[0] != ']' || (*str)[1] != ')'))
+        return ROB_MAPPING_ERROR;
       *str += 2;
       sv->u.map = allocate_mapping (0);
       sv->type = T_MAPPING;
@@ -809,6 +817,8 @@ static int restore_mapping (char **str, svalue_t * sv) {
           }
 
         case ']':
+          if (*cp != ')')
+            goto generic_key_error;
           *str = ++cp;
           add_map_stats (m, count);
           sv->type = T_MAPPING;
@@ -836,6 +846,9 @@ static int restore_mapping (char **str, svalue_t * sv) {
 
       /* At this point, key is a valid, referenced svalue and we're
          responsible for it */
+
+      if (cp[-1] != ':') /* what was stepped over behind the key (possibly the end of the text) is not the delimiter */
+        goto generic_value_error;
 
       switch (c = *cp++)
         {
@@ -904,6 +917,12 @@ static int restore_mapping (char **str, svalue_t * sv) {
         }
 
       /* both key and value are valid, referenced svalues */
+
+      if (cp[-1] != ',') /* as for the key */
+        {
+          free_svalue (&value, "restore_mapping: no delimiter behind the value");
+          goto generic_value_error;
+        }
 
       oi = (int)MAP_POINTER_HASH (key.u.number);
       i = oi & mask;
@@ -991,7 +1010,11 @@ static int restore_class (char **str, svalue_t * ret) {
   int err;
 
   if (save_svalue_depth)
-    size = save_svalue_sizes[save_svalue_depth - 1];
+    {
+      if (!NESTED_SIZE_RECORDED ())
+        return ROB_CLASS_ERROR;
+      size = save_svalue_sizes[save_svalue_depth - 1];
+    }
   else if ((size = restore_size (str, 0)) < 0)
     return ROB_CLASS_ERROR;
 
@@ -1008,8 +1031,9 @@ static int restore_class (char **str, svalue_t * ret) {
           if ((err = restore_interior_string (str, sv)))
             goto generic_error;
           cp = *str;
-          cp++;
           sv++;
+          if (*cp++ != ',') /* what follows the element is not the delimiter (possibly the end of the text) */
+            goto generic_error;
           break;
 
         case ',':
@@ -1041,7 +1065,8 @@ static int restore_class (char **str, svalue_t * ret) {
               goto generic_error;
             sv++;
             cp = *str;
-            cp++;
+            if (*cp++ != ',')
+              goto generic_error;
             break;
           }
 
@@ -1060,6 +1085,8 @@ static int restore_class (char **str, svalue_t * ret) {
             sv++;
           else
             goto numeral_error;
+          if (cp[-1] != ',')
+            goto generic_error;
           break;
 
         default:
@@ -1067,6 +1094,8 @@ static int restore_class (char **str, svalue_t * ret) {
         }
     }
 
+  if (cp[0] != '/' || cp[1] != ')') /* the sizing pass and this one can disagree about damaged text */
+    goto generic_error;
   cp += 2;
   *str = cp;
   ret->u.arr = v;
@@ -1092,7 +1121,11 @@ static int restore_array (char **str, svalue_t * ret) {
   int err;
 
   if (save_svalue_depth)
-    size = save_svalue_sizes[save_svalue_depth - 1];
+    {
+      if (!NESTED_SIZE_RECORDED ())
+        return ROB_ARRAY_ERROR;
+      size = save_svalue_sizes[save_svalue_depth - 1];
+    }
   else if ((size = restore_size (str, 0)) < 0)
     return ROB_ARRAY_ERROR;
 
@@ -1109,8 +1142,9 @@ static int restore_array (char **str, svalue_t * ret) {
           if ((err = restore_interior_string (str, sv)))
             goto generic_error;
           cp = *str;
-          cp++;
           sv++;
+          if (*cp++ != ',') /* what follows the element is not the delimiter (possibly the end of the text) */
+            goto generic_error;
           break;
 
         case ',':
@@ -1142,7 +1176,8 @@ static int restore_array (char **str, svalue_t * ret) {
               goto generic_error;
             sv++;
             cp = *str;
-            cp++;
+            if (*cp++ != ',')
+              goto generic_error;
             break;
           }
 
@@ -1161,6 +1196,8 @@ static int restore_array (char **str, svalue_t * ret) {
             sv++;
           else
             goto numeral_error;
+          if (cp[-1] != ',')
+            goto generic_error;
           break;
 
         default:
@@ -1168,6 +1205,8 @@ static int restore_array (char **str, svalue_t * ret) {
         }
     }
 
+  if (cp[0] != '}' || cp[1] != ')') /* the sizing pass and this one can disagree about damaged text */
+    goto generic_error;
   cp += 2;
   *str = cp;
   ret->u.arr = v;
